@@ -7,7 +7,7 @@ package transaction
 //@ property C11 C37
 // A transaction's timestamp and id are fixed attributes of the (immutable) transaction value.
 //@ smt all (declare-fun tx_ts (Iface) W64)
-//@ smt all (declare-fun tx_id (Iface) BSeq)
+//@ smt all (declare-fun tx_idstr (Iface) Str)
 
 //@ func (tx Transaction) Timestamp() (ts)
 //@   iface
@@ -19,4 +19,4 @@ package transaction
 //@   iface
 //@   trusted
 //@   pure
-//@   ensures seq(id) == tx_id(tx)
+//@   ensures str(id) == tx_idstr(tx)
